@@ -56,7 +56,7 @@ SPEC = dict(
     harness_bin="maxi",
     ml_modules=["maxi_model"],
     ocaml_packages=("str", "unix"),
-    n={"quick": 800, "thorough": 12000},
+    n={"quick": 1000, "thorough": 12000},
     search_n={"quick": 3000, "thorough": 20000},
     nontrivial=nontrivial,
     histogram=histogram,
